@@ -131,7 +131,7 @@ class Gen:
             return copy.deepcopy(p)
         n = rf.n if (rf is not None and (same_len or same_keys)) else None
         if same_keys and rf is not None and rf.keys is not None:
-            ks = list(rf.keys)
+            ks = list(dict.fromkeys(rf.keys))      # a dict source cannot repeat a key
             r.shuffle(ks)
             q = {'op': 'dict', 'kvs': [[k, r.randint(-3, 12)] for k in ks]}
         else:
